@@ -40,8 +40,14 @@ CLAIMED['C08'] = dict(
          '0..4 (quick) / 0..5 (thorough) raw iteration, every predicate and both sigop counts equal an independent tokeniser (exposed the GetSigOpCount defects, now fixed).',
     note='longer arbitrary scripts are outside the claim (template-shaped 22..43-byte scripts are covered for the fixed-offset predicates); struct stub exact; '
          'has_canonical_pushes judged against Bitcoin Core 0.9 HasCanonicalPushes.')
+CLAIMED['C10'] = dict(
+    text=_T + 'decode(encode(b)) == b and digit-by-digit agreement with the big-integer definition for ALL byte strings of length 0..24 (quick) / 0..40 (thorough) '
+         'and every leading-zero count; encode(decode(s)) == s for all alphabet strings up to 8/12 characters; arbitrary code point => InvalidBase58Error; '
+         'Base58Check acceptance decided on decoded strings of every length 0..40 with checksum = H(rest)[:4] + symbolic delta, all 4-byte strings exactly (found the 7415e100 defect, now fixed).',
+    note='integers in z3 linear integer arithmetic with fresh quotient/remainder/digit variables; engine theory lemma "solver-proved equal numbers have equal digits"; '
+         'Base58Check harnesses are compositional over decode/encode; double-SHA256 uninterpreted except exact tables for <= 12 symbolic input bits.')
 _UC = 'check not built yet in this round (engine exists; harness pending) - will be claimed or declared not applicable with its real reason'
-for _i in ['C05','C06','C07','C09','C10','C11','C12','C14','C16','C18','C19']:
+for _i in ['C05','C06','C07','C09','C11','C12','C14','C16','C18','C19']:
     NA[_i] = _UC
 NA['C13'] = ('key derivation, signing, verification and point validity are computed by OpenSSL through ctypes: there is no Python or IR to execute '
              'symbolically, and the reference (secp256k1 group law, 256-bit modular inversion) is non-linear 256-bit arithmetic out of reach of z3/cvc5')
